@@ -717,11 +717,29 @@ fn suspend_body(p: &SuspendParams) {
     if ctx::aborted() {
         return;
     }
+    // "when the suspended send finally completes, its event is delivered as well": first without any help from the harness
+    // (every stream is driven: re-polled whenever its waker is invoked) ...
+    harness::wait_quiescent(&drivers);
+    if ctx::aborted() {
+        return;
+    }
+    let resumed_ids: Vec<u32> = (0..p.suspended.len()).filter(|i| !matches!(p.suspended[*i], Suspension::Polls(_))).map(|i| event_id(10 + i, 0)).collect();
+    let stuck_before_flush: Vec<u32> = undelivered(&shared).into_iter().filter(|id| resumed_ids.contains(id)).collect();
+    // ... then with it (every stream woken until nothing more comes out)
     flush(&drivers);
     if ctx::aborted() {
         return;
     }
     let missing = undelivered(&shared);
+    if !stuck_before_flush.is_empty() && missing.is_empty() && p.streams > 0 && ctx::with_ctx(|c| c.violations.is_empty()).unwrap_or(true) {
+        let shape = format!("ms{}s{}", p.max_streams, p.streams);
+        ctx::report(
+            "C20",
+            "resumed_send_needs_an_extra_wake",
+            key(&format!("{}/resumed_send_needs_an_extra_wake", shape)),
+            format!("the suspended send(s) completed (accepted), every stream is driven and parked, and event(s) {:x?} stayed in the channel (pending_items_count was not 0) until the harness woke the streams: nobody was woken for them", stuck_before_flush),
+        );
+    }
     if !missing.is_empty() && p.streams > 0 && ctx::with_ctx(|c| c.violations.is_empty()).unwrap_or(true) {
         ctx::report("C20", "resumed_send_not_delivered", key("resumed_send_not_delivered"), format!("after the suspended send(s) completed and every stream was woken until nothing more came out, accepted events {:x?} have not been delivered", missing));
     }
